@@ -2,15 +2,16 @@ from propcommon import *  # noqa
 
 CFG = dict(
     level="proof",
-    lean_modules=["ElysModel.Props.C06"],
-    props_files=["ElysModel/Props/C06.lean"],
+    lean_modules=["ElysModel.Props.C06", "ElysModel.Props.C06Src"],
+    pre_cmds=[GO2LEAN],
+    props_files=["ElysModel/Props/C06.lean", "ElysModel/Props/C06Src.lean"],
     runs=[hist_run(focus="lp."), hist_run(focus="ss.", sq=4, st=6), fault_run(nq=200, sq=4, st=8, focus="ss."),
           # governance re-sends the vault's parameters from a stale draft now and then (harness/govshock.go govVaultShock)
           dict(hist_run(nq=150, nt=400, sq=4, st=8, focus="ss."), env_quick={"VERIF_HISTS": "1", "VERIF_FOCUS": "ss.", "VERIF_GOVSS": "1"}, env_thorough={"VERIF_HISTS": "3", "VERIF_FOCUS": "ss.", "VERIF_GOVSS": "1"})],
     rule=HIST_RULE,
-    trusted_base=COMMON_TB + ["vault ops are recognised from x/bank transfers to/from the stablestake module account; the interest accrued per borrower per block is a "
+    trusted_base=COMMON_TB + [SRC_TB, "vault ops are recognised from x/bank transfers to/from the stablestake module account; the interest accrued per borrower per block is a "
                               "witnessed (W) parameter taken from the observed debt record (for a debt deleted in the block: derived from the repay amount)"],
-    assumptions=["interest arithmetic (GetInterest) is not modelled (W); the theorem holds for every interest amount",
+    assumptions=[SRC_ASSUME, "interest arithmetic (GetInterest) is not modelled (W); the theorem holds for every interest amount",
                  "bond/unbond read Params first and write it last: no accrual happens in between (call-graph fact, observed by the correspondence)"],
     explanation="Theorems: TotalValue = cash + sum(principal + stacked - paid) preserved by bond/unbond/borrow/repay/accrue for all amounts and all interest "
                 "values, by induction over histories; deleting a debt is safe (all owed interest was paid). Model tied to the code block by block; "
